@@ -144,4 +144,52 @@ def run(ck, P):
             "(guard on !itr->removed before any effect)", floor=2)
     itr_removed_guards(ck, P, X, "C11.6-ITR-REMOVED", B, "m_bst")
 
+    ck.rule("C11.7-REMOVE-SLOT", "R-SHAPE: the slot m_bst_itr_remove hands to remove_node is, on every path, the one through which the tree owns "
+            "the node — a parent's left/right field or the tree's root field — never the iterator's own cursor (which may be a child's "
+            "`parent` back-pointer: remove_node rewrites the slot it is given, and rewriting a back-pointer leaves the tree pointing at "
+            "the freed node)", floor=1)
+    ir = P.fn("m_bst_itr_remove", B)
+    ck.analysed(ir)
+    rcalls = list(ir.calls("remove_node"))
+    ck.need(rcalls, "m_bst_itr_remove no longer calls remove_node")
+
+    def _owning_slot(e):
+        e = strip(e)
+        if e is None:
+            return False
+        if e.get("k") == "cond":
+            return _owning_slot(e.get("t") or e.get("then")) and _owning_slot(e.get("f") or e.get("else"))
+        if e.get("k") == "un" and e.get("op") == "&":
+            m = strip(e["e"])
+            return m.get("k") == "member" and m.get("field") in ("left", "right", "root")
+        return False
+    npaths = 0
+    badp = None
+    for path in ir.paths(prune=False):
+        feas, _env, _a, evs = rules.simulate(ir, path)
+        if not feas:
+            continue
+        for rc in rcalls:
+            if rc not in evs:
+                continue
+            npaths += 1
+            arg = strip(rc.args[1])
+            if arg.get("k") != "var":
+                if not _owning_slot(arg):
+                    badp = (path, S(arg), rc)
+                continue
+            last = None
+            for ev in evs:
+                if ev is rc:
+                    break
+                if ev.kind in ("decl", "assign") and ev.lhs is not None and S(ev.lhs) == arg["name"] and ev.rhs is not None:
+                    last = ev
+            if last is None or not _owning_slot(last.rhs):
+                badp = (path, S(last.rhs) if last is not None else "<unset>", rc)
+    ck.ob("C11.7-REMOVE-SLOT", ir.site("slot is owned by the tree"), npaths >= 3 and badp is None,
+          "%d path(s) to remove_node, each handing over &parent->left, &parent->right or &tree->root" % npaths if badp is None else
+          "on a path to remove_node (line %d) the slot is '%s': not a parent's child field nor the root field — when the cursor reached the node "
+          "through a child's parent pointer, remove_node rewrites that back-pointer and the tree keeps the freed node" % (badp[2].line, badp[1]),
+          path=rules.fmt_path(ir, badp[0]) if badp else None)
+
     ck.not_decided += ["sortedness / tree consistency for all insertion orders", "iterator survival across removals (shape dependent)"]
